@@ -154,3 +154,26 @@ CLAIMED["C07"] = ("effect-graph extraction from the SSA CFG (outcome-split edge 
   "durability, the restart code path itself and the adversarial follow-up are not decided. Windows present on the reference tree are genuine "
   "and listed as known findings (D15a-h).",
   TRUST, "DESIGN.md §3 C07")
+
+# rules added after the first build (sub-agent rounds 3-5); appended to the statements above
+EXTRA = {
+ "C01": "Also: swap stores the output signatures only after the spent-table insert (a refused double spend leaves nothing restorable); in the quote poll 'no such payment' is not a definitive failure (the pay call may be in flight).",
+ "C02": "Also: internal settlement credits a mint quote only for its own invoice (payment-request equality, D22); an invoice is requested only for an amount bounded by MaxInt64/1000 sats (D23); the checked-arithmetic helpers test every single addition / answer 'ok' only behind the no-wrap fact; PAID is written only over a stored UNPAID.",
+ "C03": "Also: the PENDING marker is the first storage call after the state test; the background PAID write is not repeated; poll completeness (UNPAID => invoice looked up); checked sum of the outputs is exact per addition.",
+ "C05": "Also: a status returned by a backend with a nil error is an explicit State constant on every path (no table look-up whose miss reads as Succeeded); the lock insert is a plain transactional INSERT; poll completeness.",
+ "C06": "Also: duplicate outputs are detected by B_ before the first mutation (D21); dereferences of errors.As targets lie behind that call's true edge; the key columns of the spent / pending / signature tables are bound to the unmodified values.",
+ "C09": "Also: the new active keyset row is inserted only after the old one was stored inactive.",
+ "C10": "Also: the BDHKE functions never apply a receiver-writing curve operation to memory reached from a parameter.",
+ "C12": "Also: DeserializeSecret refuses a secret only when plain json.Unmarshal fails or the decoded array is too short (no pre-filter, no stricter decoder, no content validation that would turn a locked secret into a plain one).",
+ "C13": "Also: the hash lock and the preimage are examined only while the lock is not expired; the NUT-10 parser rule of C12.",
+ "C14": "Also: error discipline of the decoders with fallback-aware tolerated entries (a failed V4 decode is answered with success only through the V3 decoder's success); decoder size caps are the library defaults.",
+ "C15": "Also: proofs of a melt that settles later keep amount, id, secret, C and witness of the pending row; run-time built IN-lists bind every element of the method's whole list parameter.",
+ "C16": "Also: the limits field of the mint is the configured Limits, unmodified.",
+ "C17": "Also: error discipline of the wallet, its client and storage (C17.R10, frozen table of tolerated sites); melt reconciliation is complete; the client reads whole response bodies; a rotation stores the previous active keyset as inactive; a swap the mint accepted removes its inputs before anything can fail.",
+ "C18": "Also: send outputs = split(amount) ++ split(fee budget); every in-memory keyset entry carries that keyset's fee from a real source (path-restricted provenance); the mint's fee operation is the formula the wallet mirrors.",
+ "C19": "Also: the counter handed to the derivation was read for the keyset the outputs are derived on; the wallet lock spans counter read to advance; no counter-advancing call lies between the counter read and the submission of the outputs derived from it.",
+ "C20": "Also: error discipline of the mint side (C20.R6: the error of every call is tested, classified or handed on before a success return; frozen table of tolerated sites); cached responses live a whole number of seconds; the restore and state-check lists are never nil (JSON arrays, not null).",
+}
+for _k, _v in EXTRA.items():
+    _t = CLAIMED[_k]
+    CLAIMED[_k] = (_t[0], _t[1] + " " + _v, _t[2], _t[3])
